@@ -1,6 +1,6 @@
 from ..framework import Spec
-from ..ties_sys import sys_tie, scenario_tie
-from ..scenarios import gen_label_scenario, gen_layout_expr_scenario
+from ..ties_sys import sys_tie, scenario_tie, layout_scenario_tie
+from ..scenarios import gen_label_scenario, gen_layout_expr_scenario, gen_embedded_label_scenario
 from ..ties_layout import string_tie, zerountil_tie
 
 SPEC = Spec(pid='C11', coq_needs=['Base', 'Data', 'DataProofs', 'Program', 'LayoutTie', 'Properties/C11'],
@@ -8,4 +8,6 @@ SPEC = Spec(pid='C11', coq_needs=['Base', 'Data', 'DataProofs', 'Program', 'Layo
                   # the same data expression text under different label scopes
                   scenario_tie('label_regions', gen_label_scenario, 100, 2000),
                   # fill counts and .zerountil targets computed from address labels
-                  scenario_tie('layout_exprs', gen_layout_expr_scenario, 100, 2000)])
+                  scenario_tie('layout_exprs', gen_layout_expr_scenario, 100, 2000),
+                  # labels on the line of the string they label; strings that repeat the label's text
+                  layout_scenario_tie('labelled_strings', gen_embedded_label_scenario, 80, 1000)])
